@@ -28,4 +28,23 @@ PROPS = {
             "when an ascii and a wide variant coincide at one offset either length is accepted",
         ],
     },
+    "C02": {
+        "src": "c02", "engine": "rc", "level": "exploration",
+        "technique": "property-based testing (rapidcheck) against a set-semantics reference matcher over the hex-string AST",
+        "level_text": ("Generated hex-string ASTs (bytes, nibble masks, negations, jumps on both sides of the 200-byte "
+                       "chaining threshold, nested alternatives) are printed, compiled and scanned over buffers sampled "
+                       "from the pattern itself (gaps at/around their bounds, partial instances as extra heads/tails); the "
+                       "reported offsets must equal the model's and each length must be one the pattern can match there."),
+        "level_note": ("Trusts the reference matcher and the shim; unchained pieces are kept below the engine's 1024-byte "
+                       "verification window, buffers <= 4 KiB; exploration bounded by case count."),
+        "quick": (4000, 45), "thorough": (100000, 600),
+        "floor": 200,
+        "rule": ("case = one generated hex string (<= ~30 tokens, alternatives nested to depth 3, jumps [n] [n-m] [n-] [-] "
+                 "around 0..1200 incl. 198..202) + 1-2 buffers (<= 4 KiB) built from samples of the pattern, partial "
+                 "samples, filler from the pattern's byte set and long single-byte runs. Non-trivial: the model expects "
+                 ">= 1 match AND the pattern contains a mask, negation, wildcard, jump or alternation; distinct by hash "
+                 "of (rule text, buffers)."),
+        "assumptions": ["a jump matches any bytes, newline included (hex strings are dot-all)",
+                        "for variable-length patterns any satisfying length is accepted at an offset"],
+    },
 }
